@@ -508,6 +508,19 @@ def c09(a):
     c = Check("C09", a.tier, a.seed)
     workdir("C09")
     binary = build_harness()
+    if not a.replay:
+        # the independent reader checks itself against CPython's datetime.fromisoformat before it judges jiff
+        import subprocess, sys
+        wd = os.path.join(workdir("C09", False), "pyoracle")
+        os.makedirs(wd, exist_ok=True)
+        trace = os.path.join(wd, "python.ndjson")
+        n = 3000 if a.tier == "quick" else 120000
+        subprocess.run([sys.executable, os.path.join(VERIF, "lib", "py_rfc3339_oracle.py"), trace, str(n), str(a.seed)], check=True)
+        pres, mism = tlc_trace("Trace_Text.tla", [trace], "C09")
+        if mism:
+            raise ToolError(f"Rfc3339.tla disagrees with Python's datetime on {len(mism)} texts, e.g. {(mism[0][3] or {}).get('s')!r}: {mism[0][2]}")
+        nn = sum(1 for _ in open(trace))
+        c.add_summary({"stem": "python", "events": nn, "files": [trace], "classes": {"python-oracle": nn}, "distinct_nontrivial": 0, "samples": {}})
     drive_and_validate(c, a, binary, "c09", "Trace_Text.tla")
     zoned_part(c, a, binary, "c09z")
     c.rule = ("pp_ts / pp_dt / pp_date / pp_time: Timestamp, DateTime, Date, Time printed with the default printer and with "
